@@ -38,7 +38,7 @@ SHARDS = {'quick': 1, 'thorough': 16}
 SHARD_TIMEOUT = {'quick': 300, 'thorough': 1500}
 
 SIZES = {'quick': dict(datasets=6, bases=14, nested=2, max_bound_rows=7),
-         'thorough': dict(datasets=14, bases=28, nested=5, max_bound_rows=9)}
+         'thorough': dict(datasets=6, bases=16, nested=3, max_bound_rows=8)}
 
 FINDINGS = {
     'order_drops_distinct': 'C24-ORDER-BY-DROPS-AUTO-DISTINCT',
@@ -47,6 +47,7 @@ FINDINGS = {
     'filter_before_limit': 'C24-LIMITED-SUBQUERY-FILTER-BEFORE-LIMIT',
     'filter_truth_raw': 'C24-FILTER-NON-BOOLEAN-EXPRESSION-USED-RAW',
     'bulk_delete_aliases': 'C24-BULK-DELETE-SUPPRESSED-ALIASES',
+    'bulk_delete_having': 'C24-BULK-DELETE-DROPS-AGGREGATE-CONDITION',
 }
 
 
@@ -606,6 +607,9 @@ def check_delete(mon, base, form, chain0, U, rng, nt):
             ctx.count('delete.return_value.' + ('rows_selected' if res.value == len(selected) else 'other'))
             exp_d, got_d = {'remaining': exp_after, 'returned': len(selected)}, {'remaining': state.get('after'), 'returned': res.value}
             if ok: mon.book('delete_bulk' if bulk else 'delete', p, 'agree', nontrivial=nt)
+            elif bulk and bulk_delete_having_shape(qdiff, env, base) and set(state.get('after') or []) <= set(exp_after):
+                mon.book('delete_bulk', p, 'known', 'the DELETE ... WHERE pk IN (subquery) form omits the HAVING conditions of a '
+                         'collection-aggregate condition: more rows are deleted than the query selects', exp_d, got_d, 'bulk_delete_having')
             elif bulk and bulk_delete_alias_shape(base.src):
                 mon.book('delete_bulk', p, 'known', 'DELETE is built with table aliases suppressed: a correlated subquery in the '
                          'condition then compares a table with itself', exp_d, got_d, 'bulk_delete_aliases')
@@ -615,6 +619,18 @@ def check_delete(mon, base, form, chain0, U, rng, nt):
             if now != before:
                 ctx.violation({'program': p.to_json(), 'detail': 'delete was not rolled back by the harness'}, mechanism='harness')
                 env.load(env.data, env.data_id)
+
+
+def bulk_delete_having_shape(qdiff, env, base):
+    """The condition aggregates a collection path that pony turns into LEFT JOIN + GROUP BY + HAVING."""
+    import ast
+    it = qdiff.Interp(env.mirror, base.params)
+    tree = qdiff.parse_src(base.src)
+    it.tenv = {}; it.bind_static(tree.generators)
+    try: rew = qdiff.aggr_opt_rewrite(it, tree)
+    except qdiff.Unsupported: return False
+    if rew is None: return False
+    return any(it.has_qaggr(c) for g in rew[0].generators for c in g.ifs)
 
 
 def bulk_delete_alias_shape(src):
